@@ -199,7 +199,9 @@ class MPBFloatFormat_infval(Contract):
     params = {'self': 'MPBFloatFormat', 's': 'bool'}
     returns = 'Float'
     properties = ['C16']
-    options = {'split_heavy': True}
+    # RealFloat.next_away_zero (normalize + increment, inlined) against the MPS ordinal: does not finish within 300 s
+    # (no verdict on any path yet): thorough tier only
+    options = {'split_heavy': True, 'symbolic_tier': 'thorough'}
 
     def pre(self, s):
         return {'bounds': mpbfl_bounds(self)}
